@@ -71,11 +71,12 @@ _Static_assert(sizeof(src_procs_map) / sizeof(*src_procs_map) == M_SRC_TYPE_END,
 static void src_priv_dtor(void *data) {
     ev_src_t *t = (ev_src_t *)data;
 
-    /* If a fd is deregistered for a RUNNING module, stop polling on it */
-    if (m_mod_is(t->mod, M_MOD_RUNNING)) {
-        M_MOD_CTX(t->mod);
-        poll_set_new_evt(&c->ppriv, t, RM);
-    }
+    /*
+     * NOTE: the source was already removed from the poll set by unpoll_src(),
+     * when it was removed from its module. Do not touch t->mod here:
+     * this dtor may run long after the module is gone, ie: when the last
+     * event still referencing the source is released.
+     */
 
     /* Properly manage autoclose flag */
     if (t->flags & M_SRC_FD_AUTOCLOSE) {
@@ -327,6 +328,17 @@ static ev_src_t *process_thresh(ev_src_t *this, m_ctx_t *c, int idx, evt_priv_t 
 
 /** Private API **/
 
+/*
+ * Stop polling a source that is being removed from its (alive) module;
+ * this also closes the internal fd (timerfd, signalfd...) backing it.
+ */
+void unpoll_src(ev_src_t *src) {
+    if (src && src->mod && src->ev) {
+        M_MOD_CTX(src->mod);
+        poll_set_new_evt(&c->ppriv, src, RM);
+    }
+}
+
 int init_src(m_mod_t *mod, m_src_types t) {
     mod->srcs[t] = m_bst_new(src_cmp_map[t], mem_dtor);
     if (!mod->srcs[t]) {
@@ -394,6 +406,8 @@ int deregister_mod_src(m_mod_t *mod, m_src_types type, void *src_data) {
     M_MOD_ASSERT(mod);
     M_MOD_CONSUME_TOKEN(mod);
 
+    /* If a src is deregistered for a RUNNING module, stop polling on it */
+    unpoll_src(m_bst_find(mod->srcs[type], src_data));
     return m_bst_remove(mod->srcs[type], src_data);
 }
 
